@@ -184,10 +184,29 @@ def diff(a, b):
     return out
 
 
+def check_value_hashes(ev):
+    """pinned table of value hashes (they feed every signature): byte-identical"""
+    from dds.fun_args import dds_hash
+    from ..jsonval import dec
+
+    viols = []
+    table = json.load(open(os.path.join(common.VERIF, "corpus", "C03", "values", "value_hashes.json")))
+    for i, row in enumerate(table):
+        v = dec(row["value"])
+        try:
+            h = dds_hash(v)
+        except BaseException as e:  # noqa
+            h = "ERR:" + type(e).__name__
+        ev.case({"pinned_value": row["value"], "hash": h}, True, features=["pinned-value-hash"], key=["vh", i])
+        if h != row["hash"]:
+            viols.append(Violation(f"pinned value hash changed: dds_hash({v!r}) = {h[:16]}, pinned {row['hash'][:16]}", {"value_hash": i}))
+    return viols
+
+
 def check_corpus(ev):
     """pinned corpus: byte-identical signatures"""
     cdir = os.path.join(common.VERIF, "corpus", "C03")
-    viols = []
+    viols = check_value_hashes(ev)
     for name in sorted(os.listdir(cdir)):
         d = os.path.join(cdir, name)
         if not os.path.isdir(d) or not os.path.exists(os.path.join(d, "expected.json")):
@@ -211,12 +230,104 @@ def check_corpus(ev):
     return viols
 
 
+# ---- kept lambdas (supported for direct keeps, see dds_tests/test_lambda.py) ---------------------------
+
+LAM_SRC = """import dds
+import vlog
+
+VA = {va}
+
+
+def ha():
+    vlog.rec('ha')
+    return ('ha', VA)
+
+
+def hb():
+    vlog.rec('hb')
+    return ('hb', 2)
+
+
+def fun_l():
+    return dds.keep("/lam", lambda: ({expr},))
+"""
+LAM_ELEMS = {"ha()": lambda va: ("ha", va), "hb()": lambda va: ("hb", 2), "VA": lambda va: va, "7": lambda va: 7, "'s'": lambda va: "s"}
+
+
+def lambda_strategy():
+    from hypothesis import strategies as st
+
+    expr = st.lists(st.sampled_from(sorted(LAM_ELEMS)), min_size=1, max_size=3)
+    return st.fixed_dictionaries({"lam": st.just(True), "versions": st.lists(st.tuples(expr, st.integers(1, 3)), min_size=2, max_size=4),
+                                  "multiline": st.booleans()})
+
+
+def check_lambda(case, ev=None, scratch=None):
+    """signature of a kept lambda after in-process edits == signature a fresh process assigns to the same source"""
+    from ..harness import proc
+
+    own = scratch is None
+    scratch = scratch or common.Scratch("vf-c03")
+    try:
+        root = scratch.sub()
+        mt = [1600000000]
+
+        def src(ver):
+            expr, va = ver
+            sep = ",\n        " if case["multiline"] else ", "
+            return {"pk/__init__.py": "", "pk/m0.py": LAM_SRC.format(va=va, expr=sep.join(expr))}
+
+        def write_direct(files):
+            mt[0] += 10
+            for rel, content in files.items():
+                pth = os.path.join(root, rel)
+                os.makedirs(os.path.dirname(pth), exist_ok=True)
+                open(pth, "w").write(content)
+                os.utime(pth, (mt[0], mt[0]))
+
+        write_direct(src(case["versions"][0]))
+        w = proc.Worker()
+        try:
+            w.call("init", root=root, accepted=["pk"], store={"kind": "memory"})
+            sig_inproc = []
+            for i, ver in enumerate(case["versions"]):
+                if i > 0:
+                    mt[0] += 10
+                    w.call("write_files", files=src(ver), reload=False, mtime=mt[0])
+                    w.call("call", module="vf.harness.session", func="_reload_present", args=[["pk", "pk.m0"]])
+                r = w.call("eval", module="pk.m0", func="fun_l", style="plain")
+                if r["exc"] is not None:
+                    raise Violation(f"kept lambda version {i} {ver} raised {r['exc']['type']}: {r['exc']['msg'][:300]}", case)
+                want = tuple(LAM_ELEMS[e](ver[1]) for e in ver[0])
+                if r["value"] != want:
+                    raise Violation(f"kept lambda version {i} {ver} returned {r['value']!r}, plain execution gives {want!r} (history {case['versions'][:i]})", case)
+                sig_inproc.append(r["sigs"].get("/lam"))
+        finally:
+            w.close()
+        for i, ver in enumerate(case["versions"]):
+            write_direct(src(ver))
+            res = oneshot(root, "pk", {"kind": "memory"}, [{"module": "pk.m0", "func": "fun_l", "style": "plain"}], 0)[0]
+            if res["exc"] is not None:
+                raise Violation(f"kept lambda {ver} in a fresh process raised {res['exc']}", case)
+            if res["sigs"].get("/lam") != sig_inproc[i]:
+                raise Violation(
+                    f"kept lambda {ver}: signature after the in-process history {case['versions'][:i]} is {str(sig_inproc[i])[:12]}, "
+                    f"a fresh process assigns {str(res['sigs'].get('/lam'))[:12]} to the same source", case)
+        if ev is not None:
+            ev.case(case, True, features=["kept-lambda", "lambda-multiline" if case["multiline"] else "lambda-oneline"])
+    finally:
+        if own:
+            scratch.clean()
+
+
 def shard(idx, n, tier, seed, count):
     ev = Ev()
     scratch = common.Scratch("vf-c03")
     opts = {"exclude": common.open_features(ID)}
     try:
         v = common.hyp_drive(case_strategy(opts), lambda c: check_case(c, ev, scratch), seed * 1000 + 300 + idx, count, ev)
+        if v is None:
+            v = common.hyp_drive(lambda_strategy(), lambda c: check_lambda(c, ev, scratch), seed * 1000 + 350 + idx, max(3, count // 2), ev)
     finally:
         scratch.clean()
     return ev, v
@@ -232,7 +343,13 @@ def run(tier, seed, scale=1.0):
 
 
 def replay(case):
-    if "corpus" in case:
+    if case.get("lam"):
+        check_lambda(case)
+    elif "value_hash" in case:
+        v = [x for x in check_value_hashes(Ev()) if x.case.get("value_hash") == case["value_hash"]]
+        if v:
+            raise v[0]
+    elif "corpus" in case:
         v = [x for x in check_corpus(Ev()) if x.case.get("corpus") == case["corpus"]]
         if v:
             raise v[0]
